@@ -661,6 +661,8 @@ class TypeshedFinder:
                     typeshed_client.ImportedName,
                     # typeshed pretends the class is a function
                     ast.FunctionDef,
+                    # typeshed pretends the class is a variable (e.g., a special form)
+                    ast.AnnAssign,
                 ),
             ):
                 return None
